@@ -25,6 +25,43 @@ FILES = {
     "rpylib/distribution/levycopula.py": ["C11", "C12"],
     "rpylib/model/levymodel/exponentialoflevymodel.py": ["C18", "C10"],
 }
+FILES2 = {
+    "rpylib/montecarlo/multilevel/engine.py": ["C05", "C06", "C08"],
+    "rpylib/montecarlo/multilevel/criteria.py": ["C06"],
+    "rpylib/montecarlo/standard/engine.py": ["C07", "C08"],
+    "rpylib/montecarlo/statistic/statistic.py": ["C07", "C05"],
+    "rpylib/montecarlo/statistic/tools.py": ["C07", "C05"],
+    "rpylib/montecarlo/path.py": ["C07", "C05", "C15"],
+    "rpylib/process/coupling/couplingmarkovchain.py": ["C03", "C15", "C08"],
+    "rpylib/process/coupling/couplinglevycopula.py": ["C03", "C15"],
+    "rpylib/process/coupling/couplingsde.py": ["C16", "C03"],
+    "rpylib/process/coupling/helper.py": ["C15"],
+    "rpylib/process/markovchain/markovchain.py": ["C01", "C04", "C15"],
+    "rpylib/process/markovchain/markovchainlevycopula.py": ["C01", "C04", "C15"],
+    "rpylib/process/markovchain/markovchainsde.py": ["C16"],
+    "rpylib/process/levyprocess.py": ["C15", "C08"],
+    "rpylib/grid/spatial.py": ["C13", "C01"],
+    "rpylib/grid/grid.py": ["C13"],
+    "rpylib/distribution/pairing.py": ["C14"],
+    "rpylib/product/payoff.py": ["C17"],
+    "rpylib/product/underlying.py": ["C17"],
+    "rpylib/model/levycopulamodel.py": ["C12", "C01"],
+    "rpylib/numerical/closedform/cflevymodel.py": ["C19"],
+    "rpylib/numerical/closedform/cflevycopula.py": ["C19"],
+    "rpylib/tools/parameter.py": ["C20"],
+    "rpylib/model/utils.py": ["C20"],
+    "rpylib/distribution/variate/alias.py": ["C02"],
+    "rpylib/distribution/variate/binarysearchtree.py": ["C02"],
+    "rpylib/distribution/variate/binarysearchtreeadapted.py": ["C02"],
+    "rpylib/distribution/variate/huffmantree.py": ["C02"],
+    "rpylib/distribution/variate/inversion.py": ["C02"],
+    "rpylib/distribution/variate/table.py": ["C02"],
+    "rpylib/model/levydrivensde/levylibormodel.py": ["C16"],
+    "rpylib/model/levydrivensde/levyforwardmodel.py": ["C16"],
+    "rpylib/model/levymodel/levymodel.py": ["C10", "C04"],
+}
+if os.environ.get("MUTA_SET") == "2":
+    FILES = FILES2
 OPS = [(r" \+ ", " - "), (r" - ", " + "), (r" \* ", " / "), (r" / ", " * "), (r" <= ", " < "), (r" < ", " <= "), (r" >= ", " > "),
        (r" > ", " >= "), (r" == ", " != "), (r"\b0\.5\b", "0.25"), (r"\b2 \*\* ", "3 ** "), (r"\bnp\.exp\(-", "np.exp("),
        (r" and ", " or "), (r"\bmin\(", "max("), (r"\bmax\(", "min(")]
